@@ -37,6 +37,7 @@ def run(rep, facts, tier):
         n = r_inputempty.run(rep, f, c, 'R-INPUTEMPTY', lambda nm: 'Decoder::' in nm or nm.startswith(('handles::Utf16Destination', 'handles::Utf8Destination', 'handles::convert_unaligned')))
         rep.floor('R-INPUTEMPTY', 'InputEmpty constructions (decoders)', n, 40, c)
         r_resume.run(rep, f, c, 'R-RESUME')
+        p_c10.d1_main(rep, f, c)
         for sink in ('utf8', 'utf16'):
             p_c10.helpers(rep, f, c, sink)
         r_iso.run(rep, f, c, 'R-ISO', '::decode_to_utf8_raw', '::decode_to_utf16_raw', 8)
